@@ -207,6 +207,22 @@ def instances(ctx):
     out += pick(pv, lambda n, m: dict(name=n, tables=m, kind="pvi", gamma=1.0, eps=0.5, period=len(m[0]) if "+" not in n else 3, clear=False, init="ramp"), want, lo=2, hi=12)
     out += pick(roll(m2d), lambda n, m: dict(name=n, tables=m, kind="pvi", gamma=0.5, eps=0.1, period=2, clear=False, init="ramp"), want // 2 if q else want)
     out += exact_tie_instances(roll(m2d), 3 if q else 8)
+    # discount factors just below one (1 - 2^-20): the documented threshold eps*(1-gamma)/gamma is
+    # about 1e-6 * eps, so no stop is allowed within the explored histories
+    g1 = 1.0 - 2.0 ** -20
+    for kind, test in (("vi", "span"), ("vi", "max_diff"), ("savi", "max_diff")):
+        for name, m in roll(m2d):
+            c = dict(name=name, tables=m, kind=kind, test=test, gamma=g1, eps=10.0, init="ramp", mbs=1 if kind == "savi" else 1024)
+            r_ = RefMachine(c, (1, 2, 1, 0))
+            old_ = r_.V.copy()
+            r_.solve(1)
+            first = B.measure(test, r_.V, old_)
+            _, conv_ = r_.solve(11)
+            # the measure must lie between the documented threshold (~1e-5) and epsilon during the
+            # explored histories: a solver that uses epsilon itself stops, the documented rule does not
+            if not r_.border and not conv_ and r_.n == 12 and 1e-3 < first < 5.0:
+                out.append((c, 10 ** 6))
+                break
     if True:
         out += pick(roll(m2s), lambda n, m: dict(name=n, tables=m, kind="savi", test="max_diff", gamma=0.5, eps=0.1, init="ramp", mbs=1), want)
     return out
